@@ -75,6 +75,11 @@ enum Rewrite {
     /// ancestors' next-closer names and wildcards) the genuine record that comes closest to
     /// covering it — its strict predecessor in the chain — plus the records matching the ancestors
     PredecessorProof,
+    /// NODATA claim built from the genuine NSEC (and RRSIG) of the k-th wildcard owner of the
+    /// zone with only the owner name rewritten to the query name: the RRSIG Labels field is then
+    /// smaller than the owner's label count, so the signature still verifies "as an expansion",
+    /// but RFC 4035 5.4 forbids reading such an NSEC as a statement about its owner
+    RelabelWildcardDenial(u8),
 }
 
 #[derive(Serialize, Deserialize, Clone, Debug)]
@@ -379,7 +384,13 @@ fn gen_rewrite(r: &mut Rng, nsec3: bool) -> Rewrite {
         5 => Rewrite::StripAnswer,
         6 => Rewrite::DropSoa,
         7 => Rewrite::ReplayWildcard(r.below(8) as u8),
-        8 => Rewrite::FlipRcode,
+        8 => {
+            if nsec3 {
+                Rewrite::FlipRcode
+            } else {
+                Rewrite::RelabelWildcardDenial(r.below(4) as u8)
+            }
+        }
         _ => Rewrite::AddAltChain(r.below(16) as u8),
     }
 }
@@ -562,6 +573,7 @@ fn rewrite_code(r: Rewrite) -> u64 {
         Rewrite::ReplayWildcard(_) => 7,
         Rewrite::AddAltChain(_) => 8,
         Rewrite::PredecessorProof => 9,
+        Rewrite::RelabelWildcardDenial(_) => 10,
     }
 }
 
@@ -688,6 +700,23 @@ async fn scenario(p: Plan) {
                         }
                         for d in picked {
                             m.authorities.extend(d.records.iter().cloned());
+                        }
+                    }
+                    Rewrite::RelabelWildcardDenial(k) => {
+                        let wild: Vec<&Denial> = harvested.iter().filter(|d| d.owner.iter().next().map(|l| l == b"*").unwrap_or(false)).collect();
+                        if !wild.is_empty() {
+                            let d = wild[k as usize % wild.len()];
+                            m.answers.clear();
+                            m.metadata.response_code = ResponseCode::NoError;
+                            m.authorities.retain(|r| !is_denial(r));
+                            if !m.authorities.iter().any(|r| r.record_type() == RecordType::SOA) {
+                                m.authorities.extend(soa_set.iter().cloned());
+                            }
+                            for r in &d.records {
+                                let mut r = r.clone();
+                                r.name = victim2.name.clone();
+                                m.authorities.push(r);
+                            }
                         }
                     }
                     Rewrite::AddAltChain(k) => {
